@@ -129,6 +129,10 @@ func secondOpinion(ob *Obligation, file string, timeout time.Duration) {
 }
 
 func solveOne(ob *Obligation, dir string, quick, full time.Duration, twoUnsat bool) {
+	if ob.Probe != "" {
+		// consistency probes are a cheap guard: a probe that is not decided at once is not pursued
+		quick, full = 3*time.Second, 3*time.Second
+	}
 	file := filepath.Join(dir, sanitize(ob.Name)+fmt.Sprintf("_%d.smt2", hashString(ob.Name)))
 	os.WriteFile(file, []byte(ob.Script+"(get-model)\n"), 0o644)
 	defer func() {
